@@ -58,7 +58,9 @@ def make_run(case):
     cfg["start_preconditioning_step"] = rnd.choice([-1, cfg["precondition_frequency"], cfg["precondition_frequency"] + 1])
     T = rnd.randint(6, 20)
     pk, presence = G.rand_presence(rnd, len(shapes), T)
-    return {"cfg": cfg, "shapes": shapes, "groups": None, "T": T, "presence_kind": pk, "presence": presence, "edits": G.rand_schedule(rnd, T, 1, cfg), "grad_scale": gs, "grad_kind": rnd.choice(["dense", "lowrank", "lowrank", "sparse"])}
+    edits = G.rand_schedule(rnd, T, 1, cfg)
+    resume_steps = sorted(rnd.sample(range(T), rnd.randint(1, 2))) if rnd.random() < 0.3 else []
+    return {"cfg": cfg, "shapes": shapes, "groups": None, "T": T, "presence_kind": pk, "presence": presence, "edits": edits, "resume_steps": resume_steps, "grad_scale": gs, "grad_kind": rnd.choice(["dense", "lowrank", "lowrank", "sparse"])}
 
 
 def run_case(case):
